@@ -49,6 +49,9 @@ pub trait Fv: 'static {
     type Pk: Clone + Send + MaybeSync + PartialEq + 'static;
     type Sig: Clone + Send + MaybeSync + PartialEq + 'static;
     fn keygen(seed: [u8; 32]) -> (Self::Sk, Self::Pk);
+    /// the other public constructors: operating-system entropy, and the seed expansion without the public key
+    fn generate() -> (Self::Sk, Self::Pk);
+    fn generate_from_seed(seed: [u8; 32]) -> Self::Sk;
     fn sign(m: &[u8], sk: &Self::Sk) -> Self::Sig;
     fn verify(m: &[u8], sig: &Self::Sig, pk: &Self::Pk) -> bool;
     fn sk_to_bytes(sk: &Self::Sk) -> Vec<u8>;
@@ -80,6 +83,14 @@ macro_rules! impl_fv {
             type Sig = $m::Signature;
             fn keygen(seed: [u8; 32]) -> (Self::Sk, Self::Pk) {
                 $m::keygen(seed)
+            }
+            fn generate() -> (Self::Sk, Self::Pk) {
+                let sk = $m::SecretKey::generate();
+                let pk = $m::PublicKey::from_secret_key(&sk);
+                (sk, pk)
+            }
+            fn generate_from_seed(seed: [u8; 32]) -> Self::Sk {
+                $m::SecretKey::generate_from_seed(seed)
             }
             fn sign(m: &[u8], sk: &Self::Sk) -> Self::Sig {
                 $m::sign(m, sk)
